@@ -72,12 +72,17 @@ func completionLine(ac *repl.AutoComplete, line string) (string, int, bool, stri
 // trieObserve compares the real trie (already holding `words`) with the abstract set semantics.
 // Returns "" or a description of the first mismatch.
 func trieObserve(tr *trie.Trie, set map[string]bool, universe []string, prefixes []string, lcp map[string]int) string {
+	return trieObserveAC(&repl.AutoComplete{Trie: tr}, set, universe, prefixes, lcp)
+}
+
+// trieObserveAC observes through a completion object that may have been used before (what a REPL session does).
+func trieObserveAC(ac *repl.AutoComplete, set map[string]bool, universe []string, prefixes []string, lcp map[string]int) string {
+	tr := ac.Trie
 	for _, w := range universe {
 		if tr.Contains(w) != set[w] {
 			return fmt.Sprintf("Contains(%q)=%v want %v", w, tr.Contains(w), set[w])
 		}
 	}
-	ac := &repl.AutoComplete{Trie: tr}
 	for _, p := range prefixes {
 		var want []string
 		for w := range set {
@@ -159,6 +164,24 @@ func trieReplayCase(h [][]int, w []int) *trie.Trie {
 	return tr
 }
 
+// trieReplaySession replays the witness history like an interactive session: one completion object for the whole
+// history, the TAB callback exercised on every prefix after every insertion.
+func trieReplaySession(h [][]int, w []int, prefixes []string) *repl.AutoComplete {
+	ac := repl.NewCompletion()
+	tab := func() {
+		for _, p := range prefixes {
+			completionLine(ac, p)
+		}
+	}
+	tab()
+	for _, x := range h {
+		ac.Trie.Insert(bytesOf(x))
+		tab()
+	}
+	ac.Trie.Insert(bytesOf(w))
+	return ac
+}
+
 func checkC20(c *Ctx) {
 	c.Assume("fortio.org/terminal.Terminal{Out: buffer} is a faithful stand-in for the interactive terminal in the completion callback")
 	// 1. design-level non-vacuity: the spec of the code *before* the repair must violate MembershipOK.
@@ -221,7 +244,19 @@ func checkC20(c *Ctx) {
 			if n%5000 == 1 {
 				c.Sample(map[string]any{"witness_inserts": g.H, "insert": g.W, "predicted_set": g.Set})
 			}
-			if msg := trieObserve(tr, set, universe, prefixes, lcp); msg != "" {
+			msg := trieObserve(tr, set, universe, prefixes, lcp)
+			if msg == "" && n%3 == 0 { // the same transition as a session with one long-lived completion object
+				msg = trieObserveAC(trieReplaySession(g.H, g.W, prefixes), set, universe, prefixes, lcp)
+				// ... and TAB hit on the SAME input before and after the insertion (nothing else in between)
+				for i := 0; msg == "" && i < len(prefixes); i++ {
+					if !strings.HasPrefix(bytesOf(g.W), prefixes[i]) {
+						continue
+					}
+					one := []string{prefixes[i]}
+					msg = trieObserveAC(trieReplaySession(g.H, g.W, one), set, nil, one, lcp)
+				}
+			}
+			if msg != "" {
 				sig := "trie-mismatch"
 				// narrow signature of the pre-repair defect: the inserted word is a proper prefix of an earlier word
 				for _, x := range g.H {
